@@ -171,7 +171,8 @@ func genSimpleAlert(c *Ctx, p string, rich bool) *gtfsrt.Alert {
 		tr.End = optU64(c, fmt.Sprintf("%speriod%d.end", p, i), i == 0, tv...)
 		a.ActivePeriod = append(a.ActivePeriod, tr)
 	}
-	// plain selectors only (no trip descriptors): selector normalisation is C12's business
+	// selectors with plain fields and, as deviations, identifiable trips (normalisation of
+	// non-identifying descriptors is C12's business)
 	ns := pick(c, p+"n_selectors", 1+b2i(rich), 3)
 	for i := 0; i < ns; i++ {
 		q := fmt.Sprintf("%ssel%d.", p, i)
@@ -181,6 +182,17 @@ func genSimpleAlert(c *Ctx, p string, rich bool) *gtfsrt.Alert {
 		e.RouteType = optI32(c, q+"route_type", rich, 3, 0, 12, 99)
 		e.StopId = optStr(c, q+"stop", rich, fmt.Sprintf("AS%d", i), "")
 		e.DirectionId = optU32(c, q+"direction", rich, uint32(i%2), uint32(1-i%2))
+		// a selector may name a trip: one mentioned nowhere else (by id, or by route+direction+start) or a pool trip
+		switch c.Choose(q+"trip", 5) {
+		case 1:
+			e.Trip = &gtfsrt.TripDescriptor{TripId: sp(fmt.Sprintf("alert-only-trip-%d", i)), RouteId: sp(fmt.Sprintf("AR%d", i))}
+		case 2:
+			e.Trip = &gtfsrt.TripDescriptor{RouteId: sp(fmt.Sprintf("AR%d", i)), DirectionId: cp(new(uint32)), StartTime: sp(fmt.Sprintf("1%d:30:00", i)), StartDate: sp("20240102")}
+		case 3:
+			e.Trip = &gtfsrt.TripDescriptor{TripId: sp("T1")}
+		case 4:
+			e.Trip = &gtfsrt.TripDescriptor{TripId: sp(fmt.Sprintf("alert-only-trip-%d", i))}
+		}
 		a.InformedEntity = append(a.InformedEntity, e)
 	}
 	if k := optIdx(c, p+"cause", rich, 4); k >= 0 {
